@@ -160,6 +160,11 @@ func runCheck(o checkOpts) int {
 				relevant = true
 			}
 		}
+		for _, in := range cf.Insts {
+			if hasProp(in.Props, id) {
+				relevant = true
+			}
+		}
 		if !relevant {
 			continue
 		}
